@@ -35,6 +35,10 @@ pub fn run_spec(ctx: &Ctx, sp: &Spec) -> Report {
         let scj = scenario_json(&sc);
         let mut d = Driver::new(sc, seed);
         d.known = known.clone();
+        // C05 and C14 state what holds whatever the application does: one history in four lets it break its contract
+        if matches!(sp.prop, "C05" | "C14") && i % 4 == 3 {
+            d.misuse_pm = 40;
+        }
         let out = d.run();
         rep.evaluations += 1;
         rep.api_calls += out.api_calls;
